@@ -46,6 +46,10 @@ def _solve_one(task):
     # a short first attempt, then two long ones with different seeds: budgets are sized so that a verdict
     # does not flip when all cores are busy (slow queries are the unstable ones)
     stages = [max(2000, timeout_ms // 10), timeout_ms, timeout_ms] if kind != 'cover' else [timeout_ms]
+    if kind == 'reach':
+        # the goal is literally `false` (a program point that must be unreachable): when it IS reachable the
+        # quantified background theory keeps z3 from answering sat, so do not burn the long budgets on it
+        stages = [max(3000, timeout_ms // 5), max(3000, timeout_ms // 5)]
     for n, tmo in enumerate(stages):
         try:
             s, r = _z3_check(smt2, tmo, seed + n)
@@ -59,7 +63,7 @@ def _solve_one(task):
             res['reason'] = repr(ex)
         if res['result'] != 'unknown':
             break
-    if res['result'] == 'unknown' and kind != 'cover':
+    if res['result'] == 'unknown' and kind == 'prove':
         r2 = _cvc5(smt2, timeout_ms)
         if r2 in ('unsat', 'sat'):
             res['result'] = r2
@@ -254,7 +258,7 @@ def solve_all(obligations, const_axioms, timeout_ms=10000, procs=None, seed=0, d
                 continue
             txt = to_smt2(ob.assumptions, ob.goal, axioms)
             g = True if (do_ground and _has_quant_text(txt)) else None
-            tasks.append((i, txt, timeout_ms, 'prove', g, seed))
+            tasks.append((i, txt, timeout_ms, 'reach' if z3.is_false(z3.simplify(ob.goal)) else 'prove', g, seed))
     results = dict(metas)
     heads = {t[0]: t[1] for t in tasks}
     if tasks:
